@@ -41,6 +41,10 @@ func runC04(c *rt.C) {
 		c04DeltaRefresh(c)
 		return
 	}
+	if c.Index == 6+len(slMicros)+17 || c.Index == 6+len(slMicros)+18 {
+		c14HeightRace(c, "C04")
+		return
+	}
 	if c.Index >= 6+len(slMicros)+13 && c.Index <= 6+len(slMicros)+16 {
 		c04TwoFlushers(c, mem, c.Index >= 6+len(slMicros)+15)
 		return
@@ -109,7 +113,7 @@ func init() {
 		ID: "C04", Level: "exploration",
 		Technique: "sanitizer-style runtime monitoring: MMU-enforced page-guard allocator and poison/quarantine allocator passed through Config.UseMemoryMgmt, exact shadow live-set, 'freed while still linked' walk on every free, reachable ⊆ live-set at quiescent checkpoints, held-node re-reads",
 		Rule: "user-managed memory only, alternating pageguard / poison. Two of three cases run the ownership engine (2-8 writers, 4-64 keys, 2-6 scanner goroutines with refresh rates {0,1,2,7} that hold nodes and re-read them, concurrent Visitors, snapshot churn closed in random/newest-first/oldest-last order from concurrent goroutines, GC() storms, hook and allocator perturbation); every third case runs the contention engine (2-8 writers on 1-8 shared keys, same-epoch and cross-epoch deletes of one node by several writers). " +
-			"Cases 33-36 are the two-flusher schedule (35-36 with a writer's own delete of a current-epoch item as the second flusher; an iterator parked after loading the pointer to a deleted item b holds a token of session S1; one collection worker flushes an empty list and is parked right after its session swap, a second one unlinks b and flushes it into the younger session; when the iterator resumes and steps onto b, b must still be a live block). Case 32 is the delta-backup refresh schedule (StoreToDisk with delta interleaving scans through a placeholder snapshot, so only the visitor's token protects the items; the visitor is parked inside Iterator.Refresh after dropping its token while its cursor item is deleted, collected and released; the restored backup must still be exact). Cases 24-31 park an accessor (Writer.GetNode, snapshot Iterator.Seek, Writer.Put2, Writer.Delete) inside the user-supplied key comparator right after it loaded a successor pointer, delete that successor (a current-epoch item, flushed at once) from another writer, and resume: the accessor must not touch released memory (hook-free). Cases 20-23 chain nodes in the library's NodeList and delete one of them in its own epoch (only that node may be released). Cases 0-5 are deterministic rendezvous schedules (insert of a tall node parked before linking level k ‖ delete+flush of that node), cases 6-19 enumerate the insert/delete micro-scenarios of C13 under the serialized controller in user-managed memory (after every schedule nothing released may still be linked). A fault inside the guard region, a double/invalid free, damaged poison or canary, a node freed while reachable from the head at any level, or a linked node that is not a live block is a violation. evaluations = blocks freed under guard; distinct = workload configuration / scan-age tuples",
+			"Cases 37-38 are the height race on the bare skiplist (a writer held inside the level draw of Insert2 while others raise the list's height with tall nodes; the tall nodes are then deleted and flushed: none of them may be released while still linked at a level the unlink pass did not visit). Cases 33-36 are the two-flusher schedule (35-36 with a writer's own delete of a current-epoch item as the second flusher; an iterator parked after loading the pointer to a deleted item b holds a token of session S1; one collection worker flushes an empty list and is parked right after its session swap, a second one unlinks b and flushes it into the younger session; when the iterator resumes and steps onto b, b must still be a live block). Case 32 is the delta-backup refresh schedule (StoreToDisk with delta interleaving scans through a placeholder snapshot, so only the visitor's token protects the items; the visitor is parked inside Iterator.Refresh after dropping its token while its cursor item is deleted, collected and released; the restored backup must still be exact). Cases 24-31 park an accessor (Writer.GetNode, snapshot Iterator.Seek, Writer.Put2, Writer.Delete) inside the user-supplied key comparator right after it loaded a successor pointer, delete that successor (a current-epoch item, flushed at once) from another writer, and resume: the accessor must not touch released memory (hook-free). Cases 20-23 chain nodes in the library's NodeList and delete one of them in its own epoch (only that node may be released). Cases 0-5 are deterministic rendezvous schedules (insert of a tall node parked before linking level k ‖ delete+flush of that node), cases 6-19 enumerate the insert/delete micro-scenarios of C13 under the serialized controller in user-managed memory (after every schedule nothing released may still be linked). A fault inside the guard region, a double/invalid free, damaged poison or canary, a node freed while reachable from the head at any level, or a linked node that is not a live block is a violation. evaluations = blocks freed under guard; distinct = workload configuration / scan-age tuples",
 		Assumptions: []string{"a use after free is observed only if it happens while the block is still under guard (pageguard never reuses addresses; poison quarantines for the life of the child process)", "node handles are used by the harness only while it holds an accessor token or the item is undeleted"},
 		Cases: func(t string) int {
 			if t == "thorough" {
